@@ -28,7 +28,7 @@ func conversionError(modifier string, value any, typ reflect.Type) error {
 	if ref, ok := value.(reflect.Value); ok {
 		value = ref.Interface()
 	}
-	return typeErrorf("can't convert %s%T(%v) to type %s", modifier, value, value, typ)
+	return typeErrorf("can't convert %s%T(%s) to type %s", modifier, value, Sprint(value), typ)
 }
 
 func convertValueToInt(value any, typ reflect.Type) (int64, error) {
@@ -239,7 +239,7 @@ func Convert(value any, typ reflect.Type) (any, error) { //nolint: gocyclo
 		case fmt.Stringer:
 			return value.String(), nil
 		default:
-			return fmt.Sprint(value), nil
+			return Sprint(value), nil
 		}
 	}
 	return nil, conversionError("", value, typ)
